@@ -48,6 +48,9 @@ partial def shapes (t : Tree) : List String :=
       (if name == "oC_DoubleLiteral" then ["format.formatLiteral:float-reformatted"] else []) ++
       (if name == "oC_NodeLabels" && (kidsOfRule N t "oC_NodeLabel").length ≥ 2 then ["format.KindMatcher:multiple-labels-printed-as-disjunction"] else []) ++
       (if name == "oC_Namespace" && !(kidsOfRule N t "oC_SymbolicName").isEmpty then ["format.FunctionInvocation:namespace-separator-missing"] else []) ++
+      (if name == "oC_MapLiteral" &&
+          (let ks := (kidsOfRule N t "oC_PropertyKeyName").map (fun k => unescapeKey (getText 100000 k)); ks.eraseDups.length != ks.length)
+        then ["MapLiteralVisitor:duplicate-key-keeps-last"] else []) ++
       (if name == "oC_PropertyExpression" && (kidsOfRule N t "oC_PropertyLookup").length ≥ 2 then ["PropertyExpressionVisitor:chained-lookup-keeps-last-key"] else [])
     here ++ ks.flatMap shapes
   | _ => []
